@@ -29,7 +29,7 @@ ASSUMPTIONS = [
 
 ATOMS_A = ["a", "b", "f(x, 2)"]
 ATOMS_B = ["a", "b", "c", "f(x)", "f(x, 2)"]
-ATOMS_C = ["f(x)", "f(z)", "f(h(x))", "f(x, 2)", "f(x, k=2)", "f(x + 1)", "f(-x)"]
+ATOMS_C = ["f(x)", "f(z)", "f(h(x))", "f(x, 2)", "f(x, k=2)", "f(x, k=3)", "f(x + 1)", "f(-x)"]
 OPS = ["+", "-", ":", "*", "/"]
 
 
@@ -346,15 +346,15 @@ def run(ctx):
         jobs += [("A", ATOMS_A, 3, k, ns) for k in range(ns)]
         jobs += [("C", ATOMS_C, n, 0, 1) for n in (0, 1)]
         jobs += [("C", ATOMS_C, 2, k, ns) for k in range(ns)]
-        ctx.exhaustive["trees<=2 over 5 atoms, trees<=3 over 3 atoms, trees<=2 over 7 call atoms"] = {"complete": True}
+        ctx.exhaustive["trees<=2 over 5 atoms, trees<=3 over 3 atoms, trees<=2 over 8 call atoms"] = {"complete": True}
     else:
         for n in (0, 1, 2):
             jobs += [("B", ATOMS_B, n, 0, 1)]
         jobs += [("B", ATOMS_B, 3, k, ns * 4) for k in range(ns * 4)]
         jobs += [("C", ATOMS_C, n, 0, 1) for n in (0, 1)]
         jobs += [("C", ATOMS_C, 2, k, ns) for k in range(ns)]
-        jobs += [("C3", ATOMS_C[:4], 3, k, ns * 2) for k in range(ns * 2)]
-        ctx.exhaustive["trees<=3 over 5 atoms, trees<=2 over 7 call atoms, trees<=3 over 4 call atoms"] = {"complete": True}
+        jobs += [("C3", ATOMS_C[2:6], 3, k, ns * 2) for k in range(ns * 2)]
+        ctx.exhaustive["trees<=3 over 5 atoms, trees<=2 over 8 call atoms, trees<=3 over 4 call atoms"] = {"complete": True}
     ctx.parallel(_exh_worker, jobs)
     ctx.parallel(_placement_worker, [(k, ns) for k in range(ns)])
     ctx.exhaustive["intercept-literal and group-item placements"] = {"complete": True}
